@@ -39,6 +39,17 @@ def NoLeak : Body A → Prop
   | .op o rest => o ≠ .mkThreadsafeTrigger ∧ NoLeak rest
   | .nest _ inner rest => NoLeak inner ∧ NoLeak rest
 
+def isEnvOp : Op → Bool
+  | .envTty _ => true | .envFl _ => true | .envSigint _ => true | _ => false
+
+/-- nobody else changes the tty attributes, status flags or SIGINT handler while the context is active (environment
+    steps are meant for the gap BETWEEN two uses of a context manager: `C12_reuse`) -/
+def NoEnv : Body A → Prop
+  | .done => True
+  | .raise => True
+  | .op o rest => isEnvOp o = false ∧ NoEnv rest
+  | .nest _ inner rest => NoEnv inner ∧ NoEnv rest
+
 theorem Restored.refl (w : World A) : Restored w w := ⟨rfl, rfl, rfl, rfl, rfl, id, id⟩
 
 theorem Restored.trans {a b c : World A} (h1 : Restored a b) (h2 : Restored b c) : Restored a c :=
@@ -64,8 +75,13 @@ private theorem write_restored (w : World A) : Restored w (write w) := by
   · exact ⟨rfl, rfl, rfl, rfl, rfl, id, id⟩
 
 private theorem doOp_restored (T : TtyOps A) (main : Bool) (stack : List (Ctx A × Saved A)) (o : Op) (w : World A)
-    (h : o ≠ .mkThreadsafeTrigger) : Restored w (doOp T main stack o w).1 := by
+    (h : o ≠ .mkThreadsafeTrigger)
+    (he : isEnvOp o = false) :
+    Restored w (doOp T main stack o w).1 := by
   cases o with
+  | envTty k => exact absurd he (by simp [isEnvOp])
+  | envFl k => exact absurd he (by simp [isEnvOp])
+  | envSigint hh => exact absurd he (by simp [isEnvOp])
   | request out =>
     simp only [doOp]
     split
@@ -101,25 +117,26 @@ private theorem enter_exit_restored (T : TtyOps A) (main : Bool) (c : Ctx A) (w 
 
 /-- the general statement, for bodies at any nesting depth -/
 theorem run_restored (T : TtyOps A) (main : Bool) (body : Body A) :
-    ∀ (stack : List (Ctx A × Saved A)) (w : World A), NoLeak body → Restored w (run T main body stack w).2.1 := by
+    ∀ (stack : List (Ctx A × Saved A)) (w : World A), NoLeak body → NoEnv body →
+      Restored w (run T main body stack w).2.1 := by
   induction body with
-  | done => intro _ w _; exact Restored.refl w
-  | raise => intro _ w _; exact Restored.refl w
+  | done => intro _ w _ _; exact Restored.refl w
+  | raise => intro _ w _ _; exact Restored.refl w
   | op o rest ih =>
-    intro stack w hn
-    have h1 := doOp_restored T main stack o w hn.1
+    intro stack w hn he
+    have h1 := doOp_restored T main stack o w hn.1 he.1
     simp only [run]
     split
     · exact h1
-    · exact h1.trans (ih stack _ hn.2)
+    · exact h1.trans (ih stack _ hn.2 he.2)
   | nest c inner rest ih1 ih2 =>
-    intro stack w hn
-    have hin := ih1 ((c, (enter T main c w).1) :: stack) (enter T main c w).2 hn.1
+    intro stack w hn he
+    have hin := ih1 ((c, (enter T main c w).1) :: stack) (enter T main c w).2 hn.1 he.1
     have h3 := enter_exit_restored T main c w _ hin
     simp only [run]
     split
     · exact h3
-    · exact h3.trans (ih2 stack _ hn.2)
+    · exact h3.trans (ih2 stack _ hn.2 he.2)
 
 /-- The property at full strength: `with c: body` restores, for every body. FALSE because of D18. -/
 def C12_full_statement : Prop :=
@@ -132,9 +149,31 @@ def C12_full_statement : Prop :=
     alternate screen active; for every flag combination, both threads, every initial state, every nesting.
     Hypothesis = complement of D18: the body creates no thread-safe trigger. -/
 theorem C12_restore_partial (T : TtyOps A) (main : Bool) (c : Ctx A) (body : Body A) (w : World A)
-    (h : NoLeak body) : Restored w (withCtx T main c body w).2.1 := by
+    (h : NoLeak body) (he : NoEnv body) : Restored w (withCtx T main c body w).2.1 := by
   unfold withCtx
-  exact run_restored T main (.nest c body .done) [] w ⟨h, trivial⟩
+  exact run_restored T main (.nest c body .done) [] w ⟨h, trivial⟩ ⟨he, trivial⟩
+
+/-- Re-using ONE context-manager object: use it (`b1`), let the environment change the terminal / flags / handler
+    (`e`, any operation - typically `envTty`, `envFl`, `envSigint`), use the same object again (`b2`).  The second
+    exit restores the world as it was at the SECOND entry (after the environment's change), not the one captured at
+    the first entry; and the first exit restored the world of the first entry. -/
+theorem C12_reuse (T : TtyOps A) (main : Bool) (c : Ctx A) (b1 b2 : Body A) (e : Op) (w : World A)
+    (h1 : NoLeak b1) (e1 : NoEnv b1) (h2 : NoLeak b2) (e2 : NoEnv b2)
+    (hr : (withCtx T main c b1 w).2.2 = false)
+    (he : (doOp T main [] e (withCtx T main c b1 w).2.1).2 = false) :
+    let w1 := (withCtx T main c b1 w).2.1
+    let w2 := (doOp T main [] e w1).1
+    (run T main (.nest c b1 (.op e (.nest c b2 .done))) [] w).2.1 = (withCtx T main c b2 w2).2.1 ∧
+      Restored w w1 ∧ Restored w2 (withCtx T main c b2 w2).2.1 := by
+  refine ⟨?_, C12_restore_partial T main c b1 w h1 e1, C12_restore_partial T main c b2 _ h2 e2⟩
+  unfold withCtx at hr he ⊢
+  simp only [run] at hr he ⊢
+  split at hr
+  · simp at hr
+  · rename_i hk
+    simp only [hk] at he ⊢
+    simp only [Bool.false_eq_true, if_false] at he ⊢
+    simp [he]
 
 /-- "the cursor is visible again": whatever the state before and whatever the body did, after leaving a window
     created with hide_cursor=True the cursor is visible. -/
@@ -173,6 +212,9 @@ private theorem run_alt (T : TtyOps A) (main : Bool) (body : Body A) :
       | render => simp only [doOp]; split <;> simp [write, ha]
       | mkTrigger => exact ⟨ha, rfl⟩
       | mkThreadsafeTrigger => simp only [doOp]; split <;> simp [ha]
+      | envTty k => simp [doOp, ha]
+      | envFl k => simp [doOp, ha]
+      | envSigint hh => simp [doOp, ha]
     simp only [run]
     split
     · exact h1
@@ -229,7 +271,7 @@ theorem C12_main_screen_partial (T : TtyOps A) (main : Bool) (hide : Bool) (body
 
 /-! ### known findings: witnesses on the model -/
 
-def unitOps : TtyOps Unit := { cbreak := id, noStartStop := id, nonblock := id }
+def unitOps : TtyOps Unit := { cbreak := id, noStartStop := id, nonblock := id, envTty := fun _ => id, envFl := fun _ => id }
 def w0 : World Unit :=
   { tty := (), fl := 2, sigint := .dflt, wakeup := none, fds := [], nextFd := 3, nextId := 0,
     cursorVisible := true, alt := false, mainScreen := 0 }
@@ -254,5 +296,12 @@ theorem C12_D26_witness : ¬ C12_main_screen_full_statement := by
 example : NoLeak (A := Unit) (.op (.request .returnsAfterRead)
     (.nest (.fullscreen true) (.op .render (.op (.request .keyboardInterrupt) .raise)) .done)) := by
   simp [NoLeak]
+
+
+/-- Non-vacuity of `C12_reuse`: one Input used twice, ECHO toggled by somebody else in between; neither use raises. -/
+example : (withCtx unitOps true (.input ⟨true, false⟩) (.op (.request .returnsAfterRead) .done) w0).2.2 = false ∧
+    (doOp unitOps true [] (.envTty 0)
+      (withCtx unitOps true (.input ⟨true, false⟩) (.op (.request .returnsAfterRead) .done) w0).2.1).2 = false := by
+  decide
 
 end Curtsies
